@@ -83,7 +83,7 @@ func (r *reuseDrv) Snapshot(context.Context) (migrate.RestoreFunc, error) {
 }
 func (r *reuseDrv) CheckClean(context.Context, *migrate.TableIdent) error { return nil }
 
-func newReusePlanner(d, qual, mode string) (*migrate.Planner, *reuseDrv) {
+func newReusePlanner(d, qual, mode, indent string) (*migrate.Planner, *reuseDrv) {
 	drv := &reuseDrv{Differ: differ(d), d: d}
 	var opts []migrate.PlannerOption
 	switch qbase(qual) {
@@ -94,6 +94,9 @@ func newReusePlanner(d, qual, mode string) (*migrate.Planner, *reuseDrv) {
 	}
 	if mode != "unset" {
 		opts = append(opts, migrate.PlanWithMode(planMode(mode)))
+	}
+	if indent != "" {
+		opts = append(opts, migrate.PlanWithIndent(indent))
 	}
 	return migrate.NewPlanner(drv, &migrate.MemDir{}, opts...), drv
 }
@@ -190,12 +193,12 @@ func runReuse(a *acct, cs Case, verbose bool) {
 	c := a.c
 	d, qual, mode := cs.Dialect, cs.Qual, cs.Mode
 	base := qbase(qual)
-	shared, sdrv := newReusePlanner(d, qual, mode)
+	shared, sdrv := newReusePlanner(d, qual, mode, cs.Indent)
 	afterCheckpoint := false
 	var hist []string
 	for i, op := range cs.Seq {
 		got := doOp(shared, sdrv, d, i, op)
-		fp, fdrv := newReusePlanner(d, qual, mode)
+		fp, fdrv := newReusePlanner(d, qual, mode, cs.Indent)
 		one := op
 		one.Write = false
 		want := doOp(fp, fdrv, d, i, one)
@@ -343,6 +346,9 @@ func reuseCases(c *rt.Ctx, di int, d string) []Case {
 				{"p.tables", "p.modify-schema", "c.tables", "p.modify-schema", "p.tables"},
 			} {
 				cs := Case{Dialect: d, Src: "reuse", Qual: q, Mode: mode}
+				if len(out)%2 == 0 {
+					cs.Indent = "  "
+				}
 				for _, n := range seq {
 					cs.Seq = append(cs.Seq, ops[n])
 				}
@@ -353,7 +359,7 @@ func reuseCases(c *rt.Ctx, di int, d string) []Case {
 	r := c.Rand(16, uint64(di), 5)
 	allq := append(append([]string(nil), qs...), "custom:upper", "custom:dot")
 	for i := 0; i < c.Pick(60, 1500); i++ {
-		cs := Case{Dialect: d, Src: "reuse", Qual: allq[r.IntN(len(allq))], Mode: modes[r.IntN(len(modes))]}
+		cs := Case{Dialect: d, Src: "reuse", Qual: allq[r.IntN(len(allq))], Mode: modes[r.IntN(len(modes))], Indent: []string{"", "  ", "\t"}[r.IntN(3)]}
 		for n := 3 + r.IntN(5); n > 0; n-- {
 			op := ops[reuseOpNames[r.IntN(len(reuseOpNames))]]
 			if r.IntN(4) == 0 {
